@@ -21,6 +21,7 @@ type defaultVarMocker struct {
 	targetValue reflect.Value
 	mockValue   interface{}
 	originValue interface{}
+	mocked      bool // mocked 是否已经保存过原值
 	canceled    bool // canceled 是否被取消
 }
 
@@ -63,7 +64,14 @@ func (m *defaultVarMocker) Apply(callback interface{}) {
 
 // Cancel 取消 mock
 func (m *defaultVarMocker) Cancel() {
-	m.targetValue.Elem().Set(reflect.ValueOf(m.originValue))
+	if m.mocked {
+		origin := reflect.ValueOf(m.originValue)
+		if !origin.IsValid() {
+			// the variable held a nil interface
+			origin = reflect.Zero(m.targetValue.Elem().Type())
+		}
+		m.targetValue.Elem().Set(origin)
+	}
 	m.canceled = true
 }
 
@@ -80,7 +88,10 @@ func (m *defaultVarMocker) Set(value interface{}) {
 }
 
 func (m *defaultVarMocker) doSet(value interface{}) {
-	m.originValue = m.targetValue.Elem().Interface()
+	if !m.mocked {
+		m.originValue = m.targetValue.Elem().Interface()
+		m.mocked = true
+	}
 	d := reflect.ValueOf(value)
 	m.targetValue.Elem().Set(d)
 	m.mockValue = value
